@@ -183,15 +183,16 @@ func (t *tree) cacheOwner(n *node) *node {
 
 // recHandler records monitor callbacks (C16) and can be made slow or blocked.
 type recHandler struct {
-	mu       sync.Mutex
-	calls    []hcall
-	inflight int
-	maxInfl  int
-	delay    time.Duration
-	block    chan struct{} // non-nil: every callback waits on it
-	core     *kit.Core
-	doneCh   <-chan struct{}
-	afterDn  int
+	mu          sync.Mutex
+	calls       []hcall
+	inflight    int
+	maxInfl     int
+	delay       time.Duration
+	block       chan struct{} // non-nil: every callback waits on it
+	core        *kit.Core
+	doneCh      <-chan struct{}
+	afterDn     int
+	runningAtDn int
 }
 
 type hcall struct {
@@ -225,6 +226,10 @@ func (h *recHandler) enter(kind string, objs []metav1.Object) {
 		}
 	}
 	h.mu.Lock()
+	if h.doneCh != nil && isClosed(h.doneCh) {
+		// Done() closed while this callback was still running
+		h.runningAtDn++
+	}
 	h.inflight--
 	h.mu.Unlock()
 }
